@@ -401,7 +401,11 @@ func OpenReader(path string) (*Reader, error) {
 			os.Remove(tempPath) // Clean up temp file
 
 			if err != nil {
-				continue // Skip this filter
+				// A filter that cannot be loaded means the file is damaged.
+				// (Skipping it would also leave pos before the filter body,
+				// and Get would skip the whole block for want of a filter.)
+				ioManager.Close()
+				return nil, fmt.Errorf("invalid bloom filter at position %d: %w", pos-12, err)
 			}
 
 			// Add the bloom filter to our list
